@@ -114,4 +114,27 @@ Section C01Update.
     Nat.odd (length m) = true ->
     simplify eqb (update_from_simplified eqb m (simplify eqb m)) = simplify eqb m.
   Proof. intros Hodd. now rewrite update_same. Qed.
+
+  Lemma update_lands_guarded m s :
+    Nat.odd (length m) = true -> length s = length (simplify eqb m) ->
+    length (update_from_simplified eqb m s) = length m
+    /\ (forall i, ~ In i (simplified_mapping eqb m) ->
+          nth_error (update_from_simplified eqb m s) i = nth_error m i)
+    /\ (forall j i, nth_error (simplified_mapping eqb m) j = Some i ->
+          nth_error (update_from_simplified eqb m s) i = nth_error s j).
+  Proof.
+    intros Hodd Hlen. destruct (update_lands m s Hodd) as (A & B & C).
+    split; [exact A|split; [exact B|]]. intros j i Hj.
+    destruct (nth_error s j) as [v|] eqn:E; [exact (C j i v Hj E)|].
+    apply nth_error_None in E.
+    assert (H : j < length (simplified_mapping eqb m)) by (apply nth_error_Some; congruence).
+    destruct (simplified_mapping_sound eqb eqb_spec m Hodd) as (_ & L & _).
+    rewrite L, <- Hlen in H. lia.
+  Qed.
+
+  Lemma update_same_both m :
+    Nat.odd (length m) = true ->
+    update_from_simplified eqb m (simplify eqb m) = m
+    /\ simplify eqb (update_from_simplified eqb m (simplify eqb m)) = simplify eqb m.
+  Proof. intros Hodd. split; [now apply update_same|now apply simplify_update_same]. Qed.
 End C01Update.
